@@ -69,15 +69,24 @@ func validatePlaybacks(run *vx.Run, recs []tvPlayback) map[string]string {
 
 func randomAnimation(rng *rand.Rand, maxCanvas, maxLen int) *animation.Animation {
 	cw, ch := 1+rng.Intn(maxCanvas), 1+rng.Intn(maxCanvas)
+	if rng.Intn(3) == 0 {
+		ch = cw // square canvases: a frame as wide as the canvas is then also "as wide as it is high"
+	}
 	a := &animation.Animation{CanvasWidth: cw, CanvasHeight: ch}
 	n := 1 + rng.Intn(maxLen)
 	for i := 0; i < n; i++ {
 		var w, h, ox, oy int
-		switch rng.Intn(4) {
+		switch rng.Intn(5) {
 		case 0: // full canvas
 			w, h = cw, ch
 		case 1: // canvas sized but shifted (partly outside)
 			w, h, ox, oy = cw, ch, rng.Intn(cw+1), rng.Intn(ch+1)
+		case 2: // a full-width or full-height band
+			if rng.Intn(2) == 0 {
+				w, h, oy = cw, 1+rng.Intn(ch), rng.Intn(ch)
+			} else {
+				w, h, ox = 1+rng.Intn(cw), ch, rng.Intn(cw)
+			}
 		default:
 			w, h = 1+rng.Intn(cw+2), 1+rng.Intn(ch+2)
 			ox, oy = rng.Intn(cw+1), rng.Intn(ch+1)
@@ -170,6 +179,18 @@ func checkC09(args []string) {
 		run.Note("model counterexample in generation run: %s", gen.InvViolated)
 	}
 	for _, raw := range gen.Tagged("CASE") {
+		var c genAnimCase
+		if err := json.Unmarshal(raw, &c); err != nil {
+			vx.Fatal2("CASE: %v", err)
+		}
+		anims = append(anims, c.animation())
+	}
+	// the same frame-list generator on a SQUARE canvas (width = height confuses nothing in a correct player)
+	genSq := vx.MustTLC(vx.TLCOpts{Module: "MC_AnimDec", Cfg: "GEN_AnimDecSquare.cfg", Workers: 1, Simulate: fmt.Sprintf("num=%d", run.Pick(700, 8000)), Depth: 6, Seed: run.Seed + 3, Timeout: 30 * time.Minute})
+	if genSq.InvViolated != "" {
+		run.Note("model counterexample in generation run (square canvas): %s", genSq.InvViolated)
+	}
+	for _, raw := range genSq.Tagged("CASE") {
 		var c genAnimCase
 		if err := json.Unmarshal(raw, &c); err != nil {
 			vx.Fatal2("CASE: %v", err)
